@@ -75,7 +75,7 @@ def hashCode (m : Metas) : Json → UInt64
   | .null => fnv1a Gen.v1SeedNull
   | .bool true => ofLe8 Gen.v1HashTrue
   | .bool false => ofLe8 Gen.v1HashFalse
-  | .num bits => fnv1a (le8 bits)
+  | .num bits => fnv1a (le8 (if bits == 0x8000000000000000 then 0 else bits))   -- 0 and -0 hash alike
   | .str s => fnv1a (strBytes s)
   | .arr t xs =>
     match effTag m t with
